@@ -1,12 +1,21 @@
 #include <yaclib/fault/detail/fiber/condition_variable.hpp>
+#ifdef YACLIB_VERIF
+#  include <yaclib/fault/detail/verif.hpp>
+#endif
 
 namespace yaclib::detail::fiber {
 
 void ConditionVariable::notify_one() noexcept {
+#ifdef YACLIB_VERIF
+  verif::Event(verif::kOther, this, 0, 0, 0);
+#endif
   _queue.NotifyOne();
 }
 
 void ConditionVariable::notify_all() noexcept {
+#ifdef YACLIB_VERIF
+  verif::Event(verif::kOther, this, 0, 0, 0);
+#endif
   _queue.NotifyAll();
 }
 
